@@ -80,12 +80,14 @@ package restful
 //@ requires wf: forall(0, len(webServices), func(k int) bool { return wfService(webServices[k]) })
 //@ ensures none: bestIdx(webServices, requestTokens, len(webServices)) < 0 ==> result == nil
 //@ ensures best: bestIdx(webServices, requestTokens, len(webServices)) >= 0 ==> result == webServices[bestIdx(webServices, requestTokens, len(webServices))]
+//@ ensures member: result != nil ==> exists(0, len(webServices), func(i int) bool { return webServices[i] == result })
 //@ nopanic
 //@ modifies nothing
 //@ opt opaque rootScore rootAdmits wfRoot
 //@ loop 0 invariant none: bestIdx(webServices, requestTokens, it_i) < 0 ==> best == nil && score == -1
 //@ loop 0 invariant some: bestIdx(webServices, requestTokens, it_i) >= 0 ==> best == webServices[bestIdx(webServices, requestTokens, it_i)] && score == svcScore(best)
-//@ loop 0 invariant range: bestIdx(webServices, requestTokens, it_i) < it_i
+//@ loop 0 invariant range: bestIdx(webServices, requestTokens, it_i) < it_i && bestIdx(webServices, requestTokens, it_i) >= -1
+//@ loop 0 invariant member: best != nil ==> exists(0, it_i, func(i int) bool { return webServices[i] == best })
 
 // The fold computed by detectWebService is the arg-max the property asks for:
 // an admitted service with the greatest score, the first among equals.
@@ -141,10 +143,21 @@ package restful
 //@ ensures transitive: curlyBefore(x, y) && curlyBefore(y, z) ==> curlyBefore(x, z)
 //@ ensures incomparability-transitive: !curlyBefore(x, y) && !curlyBefore(y, x) && !curlyBefore(y, z) && !curlyBefore(z, y) ==> !curlyBefore(x, z) && !curlyBefore(z, x)
 
+//@ func (*WebService).Routes
+//@ props C01 C02 C03 C11 C12 C18 C19
+//@ requires w != nil && routesLockOf(w) >= 0
+//@ ensures copy: len(result) == len(w.routes) && forall(0, len(result), func(k int) bool { return same(result[k], w.routes[k]) })
+//@ ensures fresh: w.dynamicRoutes ==> fresh(result)
+//@ ensures alias: !w.dynamicRoutes ==> same(result, w.routes)
+//@ nopanic
+//@ modifies nothing
+//@ loop 0 invariant copy: fresh(result) && len(result) == len(w.routes) && forall(0, it_i, func(k int) bool { return same(result[k], w.routes[k]) })
+
 //@ func (CurlyRouter).selectRoutes
-//@ props C01 C02 C03 C18 C19
-//@ requires ws: ws != nil
-//@ requires wf: forall(0, len(ws.routes), func(k int) bool { return wfTemplate(ws.routes[k].pathParts, ws.routes[k].hasCustomVerb) })
+//@ props C01 C02 C03 C12 C18 C19
+//@ requires ws: ws != nil && routesLockOf(ws) >= 0
+//@ requires wf: forall(0, len(ws.routes), func(k int) bool { return routeOK(ws.routes[k]) })
+//@ ensures ok: forall(0, len(result), func(j int) bool { return routeOK(result[j].route) })
 //@ ensures sound: forall(0, len(result), func(j int) bool { return exists(0, len(ws.routes), func(k int) bool { return same(result[j].route, ws.routes[k]) && pathAdmits(ws.routes[k].pathParts, requestTokens, ws.routes[k].hasCustomVerb) }) })
 //@ ensures complete: forall(0, len(ws.routes), func(k int) bool { return pathAdmits(ws.routes[k].pathParts, requestTokens, ws.routes[k].hasCustomVerb) ==> exists(0, len(result), func(j int) bool { return same(result[j].route, ws.routes[k]) }) })
 //@ ensures counts: forall(0, len(result), func(j int) bool { return result[j].staticCount == countStatic(result[j].route.pathParts, len(result[j].route.pathParts), result[j].route.hasCustomVerb) && result[j].paramCount == countParams(result[j].route.pathParts, len(result[j].route.pathParts), result[j].route.hasCustomVerb) })
@@ -152,8 +165,9 @@ package restful
 //@ ensures fresh: fresh(result)
 //@ nopanic
 //@ modifies nothing
-//@ opt opaque pathAdmits wfTemplate countStatic countParams curlyBefore
+//@ opt opaque pathAdmits wfTemplate countStatic countParams curlyBefore wfRouteLists
 //@ loop 0 invariant fresh: fresh(candidates)
+//@ loop 0 invariant ok: forall(0, len(candidates), func(j int) bool { return routeOK(candidates[j].route) })
 //@ loop 0 invariant sound: forall(0, len(candidates), func(j int) bool { return exists(0, it_i, func(k int) bool { return same(candidates[j].route, ws.routes[k]) && pathAdmits(ws.routes[k].pathParts, requestTokens, ws.routes[k].hasCustomVerb) }) })
 //@ loop 0 invariant complete: forall(0, it_i, func(k int) bool { return pathAdmits(ws.routes[k].pathParts, requestTokens, ws.routes[k].hasCustomVerb) ==> exists(0, len(candidates), func(j int) bool { return same(candidates[j].route, ws.routes[k]) }) })
 //@ loop 0 invariant counts: forall(0, len(candidates), func(j int) bool { return candidates[j].staticCount == countStatic(candidates[j].route.pathParts, len(candidates[j].route.pathParts), candidates[j].route.hasCustomVerb) && candidates[j].paramCount == countParams(candidates[j].route.pathParts, len(candidates[j].route.pathParts), candidates[j].route.hasCustomVerb) })
@@ -369,12 +383,32 @@ package restful
 
 //@ func iface:RouteSelector.SelectRoute
 //@ props C01 C02 C04 C06 C07 C10 C18 C19
-//@ requires httpRequest != nil && httpRequest.URL != nil
+//@ requires req: httpRequest != nil && httpRequest.URL != nil
+//@ requires services: forall(0, len(webServices), func(i int) bool { return svcOK(webServices[i]) })
 //@ ensures found: err == nil ==> selected != nil && selectedService != nil && wfRouteFns(selected) && wfServiceFns(selectedService)
 //@ ensures fresh: err == nil ==> fresh(selected)
+//@ ensures admitted: err == nil && TrimRightSlashEnabled ==> routeAdmits(selected, httpRequest)
+//@ ensures member: err == nil ==> exists(0, len(webServices), func(i int) bool { return webServices[i] == selectedService && exists(0, len(selectedService.routes), func(k int) bool { return same(*selected, selectedService.routes[k]) }) })
 //@ modifies nothing
 //@ nopanic
 
+// Admission stated over the token slice equals admission stated over the URL path.
+//@ lemma C01.tokens-bridge
+//@ props C01 C02 C04 C18
+//@ forall R []string, Q []string, p string, hv bool
+//@ requires isTokens(Q, p) && pathAdmits(R, Q, hv)
+//@ ensures pathAdmitsP(R, p, hv)
+//@ trigger pathAdmits(R, Q, hv), isTokens(Q, p)
+
+//@ func (CurlyRouter).SelectRoute
+//@ props C01 C02 C03 C04 C12 C18 C19
+//@ implements iface:RouteSelector.SelectRoute
+//@ uses C01.tokens-bridge
+//@ modifies nothing
+//@ nopanic
+//@ opt opaque wfTemplate wfRouteLists rootAdmits rootScore wfRoot passes countStatic countParams curlyBefore bestIdx pathAdmits pathAdmitsP isTokens
+
+// bestIdx ranges over the services (needed for index safety in SelectRoute's proof)
 //@ func iface:PathProcessor.ExtractParameters
 //@ props C01 C02 C04 C06 C07 C10 C18 C19
 //@ requires route != nil && webService != nil
@@ -404,6 +438,9 @@ package restful
 //@ requires wf: wfContainer(c)
 //@ requires unlocked: servicesLock(c) == 0
 //@ requires crw: !isCRW(httpWriter) || httpWriter.(*CompressingResponseWriter) != nil
+//@ requires services: forall(0, len(c.webServices), func(i int) bool { return svcOK(c.webServices[i]) })
+//@ requires distinct: !same(hdrOf(httpWriter), httpRequest.Header)
+//@ opt opaque svcOK validCRW ctAdmits acceptAdmits pathAdmitsP noEmptyEntry wfTemplate
 //@ modifies httpWriter.(*CompressingResponseWriter).compressor, headers, ghost $trace, ghost $g.held, ghost $g.ztarget, ghost $g.zclosed, ghost $g.accepted, ghost $g.lasterr, ghost $g.wcalls, ghost $g.wstatus, ghost $g.whcalls, ghost $g.own.closes
 //@ ensures lock-balance: servicesLock(c) == 0
 //@ signals lock-balance: servicesLock(c) == 0
@@ -415,6 +452,7 @@ package restful
 //@ ensures installed: isCRW(writer) && !isCRW(httpWriter) ==> err == nil && encodingEnabledFor(c, route) && strings.Contains(old(httpRequest.Header.Get("Accept-Encoding")), writer.(*CompressingResponseWriter).encoding) && old(hdrOf(httpWriter).Get("Content-Encoding")) == ""
 //@ ensures untouched: !isCRW(writer) ==> writer == httpWriter
 // C01: a route function is called only as the function of the selected route, with the request wrapper that names that route
+//@ callsite RouteFunction admitted: TrimRightSlashEnabled ==> routeAdmits(route, httpRequest)
 //@ callsite RouteFunction selected: err == nil && same(callee, route.Function) && arg0 == wrappedRequest && wrappedRequest.selectedRoute == route && arg1 == wrappedResponse && wrappedResponse.ResponseWriter == writer
 // C06: the chain handed to ProcessFilter is fresh, starts at 0 and is container ++ service ++ route filters around the route function; on routing errors container filters only
 //@ callsite (*FilterChain).ProcessFilter fresh: fresh(arg0) && arg0.Index == 0
@@ -547,6 +585,7 @@ package restful
 //@ requires lists: forall(0, len(routes), func(k int) bool { return wfRouteLists(routes[k]) })
 //@ ensures sound: result0 != nil ==> result1 == nil && candOK(result0, routes, httpRequest, 3)
 //@ ensures error: result0 == nil ==> result1 != nil
+//@ ensures indexed: result0 != nil ==> 0 <= ptrIndex(result0, routes) && ptrIndex(result0, routes) < len(routes) && same(*result0, routes[ptrIndex(result0, routes)])
 //@ modifies nothing
 //@ nopanic
 //@ opt opaque ctAdmits acceptAdmits noEmptyEntry
